@@ -2,7 +2,7 @@
 
 from vpbt import gfi_hist
 
-CFG = {"ops": ["update"], "change_idx": True, "change_flag": True, "oob": False}
+CFG = {"ops": ["update"], "change_idx": True, "change_flag": True, "oob": True}
 CHECKS = {"args", "weight", "bwd_constraint"}
 
 
